@@ -1,5 +1,6 @@
 import Mouette.Lemmas.SubdivSource4
-import Mouette.Lemmas.SubdivComponents4
+import Mouette.Lemmas.SubdivComponents5
+import Mouette.Lemmas.SubdivManifold5
 import Mouette.Lemmas.SubdivSource6
 import Mouette.Props.C13
 /-!
@@ -264,6 +265,69 @@ theorem components_preserved_triangulate (m m' : Raw) (hwf : WF m) :
   rw [triangulate_follows_source m h2] at h
   exact triangulateFrom_components _ m m' hwf h
 
+/-! ## round 6: the 1→3 quads refinement (orientation, border sides, components) and the components through 1→6
+
+On a triangle mesh `subdivide_triangles_3quads` is `quads3Core` (no triangulation needed: `quads3_tri`).  Its directed sides
+are the halves of the directed sides of the input and, per face, both orientations of the three spokes midpoint - barycentre. -/
+
+/-- 1→3 quads preserves "every directed side occurs in at most one face" (consistent orientation, at most two faces per
+edge) - no hypothesis on how the faces of the input meet -/
+theorem manifold_preserved_quads3 (m m' : Raw) (h3 : ∀ f ∈ m.faces, f.length = 3) (h : quads3 m = .ok m') (hes : EdgesSorted m)
+    (ho : OrientedSides m) : OrientedSides m' :=
+  q3_oriented m m' (quads3_tri m m' h3 h) hes ho
+
+/-- 1→3 quads: a directed side of the result has no opposite iff it is one of the two halves (u → m_uv), (m_uv → v) of a
+directed side (u → v) of the input that has no opposite: the border sides double, the spokes are interior -/
+theorem border_preserved_quads3 (m m' : Raw) (h3 : ∀ f ∈ m.faces, f.length = 3) (h : quads3 m = .ok m') (hes : EdgesSorted m)
+    (x : Nat × Nat) (hx : x ∈ dirSides m') :
+    (x.2, x.1) ∉ dirSides m' ↔
+      ∃ u v mu, (u, v) ∈ dirSides m ∧ (v, u) ∉ dirSides m ∧
+        halfLookup m.edges m.verts.length (keyify u v) = some mu ∧ (x = (u, mu) ∨ x = (mu, v)) :=
+  q3_border m m' (quads3_tri m m' h3 h) hes x hx
+
+/-- 1→3 quads and 1→6: the original vertices are kept and two of them are connected in the result iff they were in the
+input; after 1→3 quads every end of a side is connected to an original vertex (so the components are in bijection) -/
+theorem components_preserved_quads3_sub6 (m m' : Raw) (h3 : ∀ f ∈ m.faces, f.length = 3) (hes : EdgesSorted m) :
+    (quads3 m = .ok m' → CompPres m m' ∧ ∀ z w, Adj m' z w → ∃ c, c < m.verts.length ∧ Conn m' w c) ∧
+    (WF m → sub6 m 1 = .ok m' → CompPres m m') :=
+  ⟨fun h => q3_components m m' (quads3_tri m m' h3 h) hes, fun hwf h => sub6_components m m' h3 hes hwf h⟩
+
+/-- `triangulate` on a quad mesh adds, as a multiset, both orientations of every cut diagonal to the directed sides; so the
+result is consistently oriented IFF sides and diagonals are pairwise distinct (it fails exactly when a diagonal is already a
+side or is cut twice: the open finding `C13/triangulate/non-regular-complex`) -/
+theorem manifold_quads_triangulate_iff (m m' : Raw) (hq : ∀ f ∈ m.faces, f.length = 4) (h : triangulate m = .ok m') :
+    (dirSides m').Perm (dirSides m ++ (List.range m.faces.length).flatMap (fun i => diagOf m.faces[i]?)) ∧
+    (OrientedSides m' ↔ (dirSides m ++ (List.range m.faces.length).flatMap (fun i => diagOf m.faces[i]?)).Nodup) := by
+  refine ⟨?_, triangulate_quads_oriented_iff m m' hq h⟩
+  refine tri_quads_perm _ m m' List.nodup_range ?_ h
+  intro i hi
+  have hlt : i < m.faces.length := List.mem_range.mp hi
+  have h4 := hq m.faces[i] (List.getElem_mem hlt)
+  rcases hfe : m.faces[i] with _ | ⟨a, _ | ⟨b, _ | ⟨c, _ | ⟨d, _ | ⟨e, t⟩⟩⟩⟩⟩ <;> rw [hfe] at h4 <;> simp at h4
+  exact ⟨a, b, c, d, by rw [List.getElem?_eq_getElem hlt, hfe]⟩
+
+/-- 1→6 on a triangle mesh, PARTIAL.  FULL STATEMENT (not proved): `OrientedSides m → SharesAtMostOne m → OrientedSides m'`
+and the border sides of `m'` are the halves of the border sides of `m`.  Proved: the intermediate 1→3 quads mesh `m1` is
+consistently oriented, and `m'` is consistently oriented iff the sides of `m1` and the corner-to-corner diagonals
+(midpoint - midpoint) of its quads are pairwise distinct (a decidable criterion; the oracle checks manifoldness of every 1→6 result directly) -/
+theorem manifold_preserved_sub6_partial (m m' : Raw) (h3 : ∀ f ∈ m.faces, f.length = 3) (hes : EdgesSorted m)
+    (ho : OrientedSides m) (h : sub6 m 1 = .ok m') :
+    ∃ m1, quads3 m = .ok m1 ∧ OrientedSides m1 ∧
+      (OrientedSides m' ↔ (dirSides m1 ++ (List.range m1.faces.length).flatMap (fun i => diagOf m1.faces[i]?)).Nodup) := by
+  simp only [sub6, iterM_one, bind, Except.bind] at h
+  cases h1 : quads3 m with
+  | error e => simp [h1] at h
+  | ok m1 =>
+    simp only [h1] at h
+    obtain ⟨_, _, _, _, h4⟩ := Mouette.Props.C13.quads3_counts m m1 h1
+    exact ⟨m1, rfl, manifold_preserved_quads3 m m1 h3 h1 hes ho, triangulate_quads_oriented_iff m1 m' h4 h⟩
+
+/-- the same three facts on the body translated from the source -/
+theorem quads3_source (m m' : Raw) (h3 : ∀ f ∈ m.faces, f.length = 3) (hes : EdgesSorted m) (ho : OrientedSides m)
+    (h : C13Src.quads3 m = .ok m') : OrientedSides m' ∧ CompPres m m' := by
+  rw [subdivide_triangles_3quads_follows_source m (fun f hf => by have := h3 f hf; omega)] at h
+  exact ⟨manifold_preserved_quads3 m m' h3 h hes ho, (q3_components m m' (quads3_tri m m' h3 h) hes).1⟩
+
 /-- `X.id_faces` etc. are `range(len(X.faces))`, which is what the body translator iterates (`List.range X.faces.length`) -/
 theorem id_ranges_follow_source :
     ∀ p ∈ [("id_vertices", "vertices"), ("id_edges", "edges"), ("id_faces", "faces"), ("id_cells", "cells")], p ∈ C13Src.idRanges := by
@@ -292,6 +356,10 @@ example : C13Src.splitDoubleBoundary witnessMesh = .ok witnessMesh ∨ ∃ m', C
   first | exact Or.inl rfl | exact Or.inr ⟨_, rfl, by decide⟩
 example : C13Src.splitDoubleBoundary ⟨[(0,0,0),(1,0,0),(0,1,0)], [(0,1)], [[0,1,2]], []⟩ = .error Err.other := rfl
 example : WF nonRegularWitness ∧ ∃ m', triangulate nonRegularWitness = .ok m' ∧ m'.faces.length = 6 := ⟨by unfold WF; decide, _, rfl, by decide⟩
+example : (∀ f ∈ witnessMesh.faces, f.length = 3) ∧ EdgesSorted witnessMesh ∧ OrientedSides witnessMesh ∧
+    ∃ m', quads3 witnessMesh = .ok m' ∧ (dirSides m').length = 24 ∧ OrientedSides m' := ⟨by decide, by decide, by decide, _, rfl, by decide, by decide⟩
+-- 1→6 on the two-triangle witness: the criterion of `manifold_preserved_sub6_partial` holds, the result is oriented
+example : ∃ m', sub6 witnessMesh 1 = .ok m' ∧ (dirSides m').length = 36 ∧ OrientedSides m' := ⟨_, rfl, by decide, by decide⟩
 -- the quad cut on a regular complex: the hypotheses of `manifold_preserved_quad_cut` are satisfiable
 example : ∃ m', triangulateFace ⟨[(0,0,0),(1,0,0),(1,1,0),(0,1,0)], [(0,1),(1,2),(2,3),(0,3)], [[0,1,2,3]], []⟩ 0 = .ok m' ∧
     m'.faces = [[0,1,3],[1,2,3]] ∧ (1, 3) ∉ dirSides ⟨[], [], [[0,1,2,3]], []⟩ ∧ (3, 1) ∉ dirSides ⟨[], [], [[0,1,2,3]], []⟩ :=
